@@ -6,7 +6,7 @@ from hypothesis import given, strategies as st
 
 from vf import common, models
 from vf.common import Violation
-from vf.world import sut
+from vf.world import _rotate_threads, sut
 
 from sketchnu.hll_constants import bias_data, raw_estimate, sub_algorithm_threshold
 from sketchnu.hyperloglog import HyperLogLog
@@ -108,6 +108,7 @@ def check_case(case, stats=None):
     decoy = HyperLogLog(7 if p != 7 else 13, 3)  # a younger sketch of another precision exists while h is queried
     decoy.add(b"decoy")
     decoy.query()
+    _rotate_threads(case["rs"])  # the estimate must not depend on the enabled numba thread count
     got = float(sut(h.query))
     thr = float(sub_algorithm_threshold[p - 7])
     want, branch, margin = models.hllpp_estimate(reg, p, thr, raw_estimate[p - 7], bias_data[p - 7])
